@@ -244,7 +244,14 @@ pub fn check_block(
     // expected
     let mut expected: Vec<String> = Vec::new();
     if let Kind::Dd = kind {
-        let dtdoc = vec![El::with("dl", vec![El::with("dt", dt.to_vec()).node()]).node()];
+        // the term line: under a custom decorator a term is its content between the
+        // decorator's emphasis strings, i.e. what <p><em>..</em></p> gives (the built-in
+        // decorators draw emphasis differently, there the term is rendered on its own)
+        let dtdoc = if matches!(cfg.deco, Deco::Custom(_)) {
+            vec![El::with("p", vec![El::with("em", dt.to_vec()).node()]).node()]
+        } else {
+            vec![El::with("dl", vec![El::with("dt", dt.to_vec()).node()]).node()]
+        };
         let dti = ast::serialize(&dtdoc, &mut Fmt::canonical());
         match render_string(cfg, &dti, w) {
             Outcome::Ok(s) => expected.extend(s.lines().map(|l| l.to_string())),
